@@ -192,6 +192,9 @@ def invoke(bench, k, m, c, arr, labels, fresh_opts=None):
         vals = list(np.asarray(est.components_, dtype=float).ravel())
         if 'threshold_' in vars(est):
           vals.append(float(est.threshold_))
+        if np.ndim(arr) == 2 and not prep:
+          # the usual idiom est.fit(A, ...).transform(A): the same numbers whatever array-like A is
+          vals.extend(np.asarray(est.transform(arr), dtype=float)[:3].ravel())
         return 'ok', dyv(vals)
       est = bench.fitted[prep]
       if m == 'score' and labels is not None:
